@@ -4,7 +4,7 @@ from gen import Gen, NAMES, KEYS
 from seqdiff import run_seq
 from seqprop import coverage, replay_file, corpus, audit
 
-LEVEL = "translation_validation"
+LEVEL = "proof"
 COQ_TARGETS = ("props/C12.vo",)
 THEOREMS = ["C12_frame", "C12_new_keyspace_empty", "C12_delete_changes_no_read", "C12_recreated_name_is_a_new_empty_keyspace",
             "C12_invariants_with_deletion_and_reopen", "C12_deleted_keyspace_gone_after_reopen",
